@@ -1,26 +1,35 @@
 import Rivaas.Proto
 import Rivaas.Spec.RealIP
+import Rivaas.Model.RealIPText
 /-
-Driver for C18. Case line:
-  <id> <maxHops> <peer> <peerTrusted> <nh> { X <n> { 0 | 1 <ip> <trusted> }* | S { 0 | 1 <ip> } }* => R <result> | P
+Driver for C18. Case line (raw header text + the `net` table for every candidate item):
+  <id> <maxHops> <peer> <peerTrusted> <nh> { X <value> | S <value> }*
+       <ntbl> { <item> 0 | <item> 1 <canonical> <trusted> }*  =>  R <result> | P
+The model splits and trims the header text itself (`splitAndTrim`, `parseOneIP`), classifies every
+item through the table and runs the walk; the oracle `specOK` is evaluated on what the
+implementation returned.
 -/
 namespace Rivaas.DriverC18
 open Rivaas.Proto Rivaas.RealIP
 
-def pItem : P Item := opt (do let ip ← str; let t ← bool; pure (ip, t))
-
-def pHdr : P Hdr := do
+def pRawHdr : P RawHdr := do
   let k ← tok
-  if k == "X" then Hdr.xff <$> list pItem
-  else if k == "S" then Hdr.single <$> opt str
+  if k == "X" then RawHdr.xff <$> str
+  else if k == "S" then RawHdr.single <$> str
   else failure
 
-def pReq : P Req := do
+def pEntry : P (Bytes × Option (Bytes × Bool)) := do
+  let item ← str
+  let r ← opt (do let ip ← str; let t ← bool; pure (ip, t))
+  pure (item, r)
+
+def pReq : P RawReq := do
   let mh ← nat
   let peer ← str
   let pt ← bool
-  let hs ← list pHdr
-  pure { maxHops := mh, peer := peer, peerTrusted := pt, hdrs := hs }
+  let hs ← list pRawHdr
+  let tbl ← list pEntry
+  pure { maxHops := mh, peer := peer, peerTrusted := pt, hdrs := hs, tbl := tbl }
 
 /-- observation: `R <result>` or `P` (panic) -/
 def pObs : P (Option Bytes) := do
@@ -33,12 +42,18 @@ def step (line : String) : String :=
   | some (id, inp, obs) =>
     match runP pReq inp, runP pObs obs with
     | some r, some o =>
-      let m := clientIP r
-      let mi := o == some m
-      let s := match o with
-        | some res => specOK r res
-        | none => false
-      verdict id mi s "-" ("R " ++ encStr m)
+      match r.parse with
+      | none =>
+        -- the model produced a candidate item the harness' table does not list: model and
+        -- implementation disagree on the text layer (never guess a classification)
+        verdict id false true "-" "table-miss"
+      | some q =>
+        let m := clientIP q
+        let mi := o == some m
+        let s := match o with
+          | some res => specOK q res
+          | none => false
+        verdict id mi s "-" ("R " ++ encStr m)
     | _, _ => s!"{id} bad-case"
 
 end Rivaas.DriverC18
